@@ -26,10 +26,10 @@ SIDEREAL_RATE = 360.98564736629
 def jd_ctor(ctx):
     dt = ctx.role('dt')
     cands = []
-    for _, t in ctx.lib.bodies[dt].calls():
-        n = callee_name(t)
+    for n in ctx.reach(dt):
         b = ctx.lib.bodies.get(n)
-        if b is not None and b.arg_count == 2 and b.locals[1]['s'] == 'chrono::NaiveDate' and b.locals[0].get('adt') in ctx.lib.adts:
+        if b is not None and b.kind in ('Fn', 'AssocFn') and b.arg_count == 2 and b.locals[1]['s'] == 'chrono::NaiveDate' and \
+                b.locals[0].get('adt') in ctx.lib.adts and (b.locals[2].get('adt') or '').endswith('Gmt'):
             cands.append(n)
     if len(set(cands)) != 1:
         raise AnchorLost('Julian-Day constructor', str(cands))
